@@ -1665,7 +1665,22 @@ func runParseGate(c *Ctx, r *Reporter) {
 							vals = append(vals, ret.Results[0])
 						}
 					}
+					// a status merged from several paths (exitCode := 1; if … { exitCode = int(exitErr) }) stands for each
+					var flat []ssa.Value
+					var fl func(v ssa.Value, depth int)
+					fl = func(v ssa.Value, depth int) {
+						if phi, ok := v.(*ssa.Phi); ok && depth < 4 {
+							for _, e := range phi.Edges {
+								fl(e, depth+1)
+							}
+							return
+						}
+						flat = append(flat, v)
+					}
 					for _, v := range vals {
+						fl(v, 0)
+					}
+					for _, v := range flat {
 						if k, ok := v.(*ssa.Const); ok && k.Value != nil {
 							exits[k.Value.ExactString()] = true
 						} else {
